@@ -133,7 +133,7 @@ PROPERTY_META = {
     'C03': dict(
         deadline_quick=500, deadline_thorough=1700, engine='E1-DBE', design_ref='5/C03',
         technique='exhaustive enumeration of the termination index (every k up to past the first solution) x call histories on the real planners under the choice oracle; allocation-counting state space; for the always-multi-threaded planners (PRM, PRM*, SPARS, SPARStwo, CForest) the termination index is crossed with ALL thread schedules with <= P preemptions (E4 schedule explorer)',
-        level_text='33 single-threaded geometric planners x 3 worlds: the termination condition first fires at EVERY evaluation index k = 0..K+5, crossed with call histories over solve / '
+        level_text='37 single-threaded geometric and multilevel planners x 3 worlds: lifecycle probes with tiny budgets first, then the termination condition first fires at EVERY evaluation index k = 0..K+5, crossed with call histories over solve / '
                    'clear / clearQuery / setProblemDefinition / getPlannerData (10 curated; thorough: all of length <= 4 and single deviations of the answer stream). Per call: bounded further '
                    'evaluations, status vs. delta of the solution set, C01 path oracle for the current query, nothing of the old query after clear/switch, monotone best solution, ASan; after '
                    'teardown the counting state space must hold no live state and have seen no double free. PRM, PRM*, SPARS, SPARStwo (solution-checking thread) and CForest (2 workers) run under '
@@ -144,7 +144,7 @@ PROPERTY_META = {
     'C01': dict(
         deadline_quick=420, deadline_thorough=1700, engine='E1-DBE', design_ref='5/C01',
         technique='deviation-bounded exhaustive exploration of every random answer and state sample of the real planners (choice oracle), independent dense path oracle on every execution; the always-multi-threaded planners (PRM, PRM*, SPARS, SPARStwo) under ALL thread schedules with <= P preemptions (E4 schedule explorer) with the same oracle',
-        level_text='33 single-threaded geometric planners x 16+ configurations (9 maps incl. corner-cut diagonal, U-trap, corridor, enclosed goal, obstacle on start/goal; R^2, SE(2), Dubins, '
+        level_text='37 single-threaded geometric and multilevel planners (incl. QRRT, QRRT*, QMP, QMP* with the level sequence R^2 <- SE(2) on SE(2) problems; reduced configuration set for these in the quick tier) x 16+ configurations (9 maps incl. corner-cut diagonal, U-trap, corridor, enclosed goal, obstacle on start/goal; R^2, SE(2), Dubins, '
                    'Reeds-Shepp; goal state/states/unsampleable region; thresholds, ranges, resolutions): every execution with <= D deviations among the first N choice points plus the full '
                    'product over the first state samples, each on fresh objects with termination at a fixed evaluation index; crashes/hangs isolated in forked children and replayed alone. '
                    'PRM, PRM*, SPARS, SPARStwo: 3 maps x budgets {8,34} (thorough {3,8,13,21,34,55}) x solve + continued solve x every schedule with <= 1 (thorough 2) preemptions.',
